@@ -32,7 +32,7 @@ REQUIRED = ["tile_checked", "tile_nonconstant_pilot", "prefix_checked:nonnegmean
             "contract:Assertion.find_sample_size"]
 ASSUMPTIONS = ["int(1/r) is the documented spacing of assumed errors", "n_big >= 1 for interleave_values (a polling "
                "assertion has winner tally > loser tally >= 0)", "rates are always passed explicitly for comparison audits"]
-N_CASES = {"quick": 32000, "thorough": 480000}
+N_CASES = {"quick": 64000, "thorough": 512000}
 RATES = (0, 0, 0.5, 0.25, 0.125, 0.0625, 2.0 ** -10, 0.2, 0.1, 0.05, 0.001, 0.3)
 LOG = []
 
